@@ -493,3 +493,71 @@ func ruleC16R4(c *Ctx) {
 	}
 	c.floor("C16.R4", "sections and nested lists", n, 12)
 }
+
+// R5: implicit panics (index / slice out of range) in what a configuration file can reach while it is loaded and
+// verified: every such expression is proved in bounds for all configuration values (F6), or is a reviewed entry
+func init() {
+	register("C16", "C16.R5", ruleC16R5)
+}
+
+var c16R5Reviewed = map[string]string{
+	"run.(*ConfigStatsBuilder).BeginTrackingFields$1|index recv.fieldsInUse|index may be negative":      "the closure is installed as LogSchema.OnLocated and is called only by CreateFieldLocator of that schema with the index it just found (slices.Index result after the -1 test: 0 <= index < len(fieldNames)); both slices are made with len(schema.GetFieldNames()) of the same schema. The call goes through a function-valued field, which the precondition search does not follow",
+	"run.(*ConfigStatsBuilder).BeginTrackingFixedFields$1|index recv.fieldsFixed|index may be negative": "the closure is installed as LogSchema.OnLocated and is called only by CreateFieldLocator of that schema with the index it just found (slices.Index result after the -1 test: 0 <= index < len(fieldNames)); both slices are made with len(schema.GetFieldNames()) of the same schema. The call goes through a function-valued field, which the precondition search does not follow",
+	"run.(*ConfigStatsBuilder).BeginTrackingFixedFields$1|index recv.fieldsInUse|index may be negative": "the closure is installed as LogSchema.OnLocated and is called only by CreateFieldLocator of that schema with the index it just found (slices.Index result after the -1 test: 0 <= index < len(fieldNames)); both slices are made with len(schema.GetFieldNames()) of the same schema. The call goes through a function-valued field, which the precondition search does not follow",
+	"transform/textractspecial.fillValidCharsByRangeExpression|index phi(slice(util/stringunescape.(Unescaper).Run(global:textractspecial.patternUnescaper,slice(param:expression,lo=1,hi=(len(param:expression)-1))),lo=1)|util/stringunescape.(Unescaper).Run(global:textractspecial.patternUnescaper,slice(param:expression,lo=1,hi=(len(param:expression)-1))))|index may be negative": "expr[i-2] is read only when rangeStarted is set, which happens only for a '-' at an index i-1 >= 1 (the `i > 0` test), so i >= 2: an invariant correlated with a boolean flag, outside the linear domain",
+	"util/stringtemplate.NewExpander|index (*regexp.Regexp).FindStringSubmatch(global:stringtemplate.variableExpressionRegex,slice(elem((*regexp.Regexp).FindAllString(global:stringtemplate.partRegex,param:template,-1)),lo=2,hi=(len(elem((*regexp.Regexp).FindAllString(global:stringtemplate.partRegex,param:template,-1)))-1)))|index may be negative":                               "regexp contract: a non-nil FindStringSubmatch result has NumSubexp()+1 entries and SubexpIndex(\"name\") is a valid group index of the same pattern (computed in init)",
+	"util/stringtemplate.NewExpander|index elem((*regexp.Regexp).FindAllString(global:stringtemplate.partRegex,param:template,-1))|index may reach len":                                                                                                                                                                                                                                    "regexp contract: every match of partRegex `(\\$\\w+|\\$\\{\\w+[^}]*\\}|[^$]+)` is non-empty, a match starting with '$' has at least two bytes, and a match `${…}` has at least four (so p[0], p[1] and p[2:len(p)-1] are in range): a property of the pattern's language, not visible in the module's code",
+	"util/stringtemplate.NewExpander|slice elem((*regexp.Regexp).FindAllString(global:stringtemplate.partRegex,param:template,-1))|low bound may exceed high bound":                                                                                                                                                                                                                        "regexp contract: every match of partRegex `(\\$\\w+|\\$\\{\\w+[^}]*\\}|[^$]+)` is non-empty, a match starting with '$' has at least two bytes, and a match `${…}` has at least four (so p[0], p[1] and p[2:len(p)-1] are in range): a property of the pattern's language, not visible in the module's code",
+	"util/stringtemplate.createVariableExpressionSolver|index param:expressionSubmatches|index may be negative":                                                                                                                                                                                                                                                                            "expressionSubmatches is the non-nil FindStringSubmatch result of variableExpressionRegex and capturedStartIndex / capturedEndIndex are SubexpIndex results of its named groups (set once in init, never reassigned): regexp contract",
+}
+
+func ruleC16R5(c *Ctx) {
+	var rootsF []*ssa.Function
+	rootsF = append(rootsF, c.P.Fns("run.ParseConfigFile")...)
+	rootsF = append(rootsF, c.P.Fns(aNewLoaderCF)...)
+	for _, fn := range c.P.universe {
+		if fn.Name() == "UnmarshalYAML" || strings.HasPrefix(fn.Name(), "UnmarshalYAML[") {
+			rootsF = append(rootsF, fn)
+		}
+	}
+	reach := c.P.reachableFrom(rootsF, func(f *ssa.Function) bool { return !c.P.inUni[f] })
+	var fns []*ssa.Function
+	for f := range reach {
+		if c.P.inUni[f] && f.Blocks != nil {
+			fns = append(fns, f)
+		}
+	}
+	sort.Slice(fns, func(i, j int) bool { return anchorName(fns[i]) < anchorName(fns[j]) })
+	c.floor("C16.R5", "universe functions reachable from configuration loading", len(fns), 60)
+	pr := c.f6()
+	res := classifyF6(c, pr, fns)
+	nA, nB, nR := 0, 0, 0
+	for _, r := range res {
+		construct := fmt.Sprintf("%s %s", r.O.Kind, canonOblig(r.O))
+		switch r.Cls {
+		case "A":
+			nA++
+			c.ok("C16.R5", r.Fn, construct, r.O.In.Pos(), "bounds check eliminated by the compiler's prove pass")
+		case "B":
+			nB++
+			why := "proved by the facts engine"
+			if len(r.Used) > 0 {
+				why += "; relies on: " + strings.Join(r.Used, "; ")
+			}
+			c.ok("C16.R5", r.Fn, construct, r.O.In.Pos(), why)
+		default:
+			key := f6Key(r.Fn, r.O, r.Why)
+			if reason, ok := c16R5Reviewed[key]; ok {
+				nR++
+				c.assumed("C16.R5", r.Fn, construct, r.O.In.Pos(), "reviewed: "+reason)
+				continue
+			}
+			if os.Getenv("SLOGCHECK_F6KEYS") != "" {
+				fmt.Printf("F6KEY %q: \"\", // %s %s\n", key, r.Pos, r.Why)
+			}
+			c.bad("C16.R5", r.Fn, construct, r.O.In.Pos(), fmt.Sprintf("%s: some configuration value makes loading / verification panic instead of returning an error; reached via %s", r.Why, chainTo(reach, r.Fn)))
+		}
+	}
+	c.note("C16.R5: %d index/slice expressions in %d functions of the configuration loading tree: %d compiler-proved, %d engine-proved, %d reviewed", len(res), len(fns), nA, nB, nR)
+	c.floor("C16.R5", "index/slice expressions decided", len(res), 60)
+}
